@@ -1,4 +1,5 @@
 import MsqModel.Driver.Codec
+import MsqModel.Driver.CmdCount
 import MsqModel.Driver.CmdScan
 import MsqModel.Driver.CmdAnalyze
 import MsqModel.Driver.CmdCache
@@ -8,7 +9,7 @@ A handler returns `none` for a request that is not its own.
 -/
 namespace Drv
 
-def handlers : List (List String → Option String) := [cmdAnalyze, cmdCache, cmdScan]
+def handlers : List (List String → Option String) := [cmdAnalyze, cmdCache, cmdScan, cmdCount]
 
 def dispatchExt (parts : List String) : String :=
   match handlers.findSome? (fun h => h parts) with
